@@ -51,7 +51,7 @@ def print_table(target_states):
 
 def print_summary(target_states):
     status_counts = Counter(status for status in target_states.values())
-    _, max_count = status_counts.most_common()[0]
+    max_count = max(status_counts.values(), default=0)
     count_width = len(str(max_count)) + 4
     for status, (color, symbol) in _STATUS_VISUALS.items():
         click.secho(
